@@ -17,7 +17,7 @@ SUMMARY = re.compile(r"aborting due to|previous error")
 
 
 def run_verus(path, rlimit=None, seed=None, threads=None, verify_function=None, timeout=900, extra=None, twin=False):
-    cmd = ["verus", path, "--output-json", "--time-expanded", "--error-format=json", "--multiple-errors", "20",
+    cmd = ["verus", path, "--output-json", "--time-expanded", "--error-format=json", "--multiple-errors", "2" if twin else "10",
            "--triggers-mode", "silent"]
     if rlimit:
         cmd += ["--rlimit", str(rlimit)]
